@@ -55,7 +55,7 @@ def worker_main(argv):
                 rng.shuffle(keys)
             case["reg"] = [e for k in keys for e in case["reg"] if tuple(sorted(e["key"])) == k]
             rec = c10.execute(case)
-            obs = {k: rec["out"].get(k) for k in ("k", "dims", "shape", "flat", "cls")}
+            obs = {k: rec["out"].get(k) for k in ("k", "dims", "shape", "flat", "cls", "raw_dims")}
             full = None
         elif fam == "c17":
             # the same links listed in another order: the accept / refuse outcome may not change
@@ -109,6 +109,22 @@ def gen_calls(rng, thorough):
         if len(c["axes"]) == 3 and len(c["reg"]) >= 3:
             add("c10", c)
             k += 1
+    # three axes served only by the three single-axis metrics (a product of three blocks: its order of multiplication,
+    # and with it the order of the result's dimensions, may not follow a set's iteration order)
+    for _ in range(60 if thorough else 15):
+        grid = c10.rand_grid(rng, naxes=3, nmax=3)
+        axn = [a["name"] for a in grid["axes"]]
+        axd = {a["name"]: a for a in grid["axes"]}
+        posn = {a: rng.choice([p for p, _ in axd[a]["pos"]]) for a in axn}
+        adims = [dict(axd[a]["pos"])[posn[a]] for a in axn]
+        ashape = [c10.plen(posn[a], axd[a]["n"]) for a in axn]
+        o = list(range(3))
+        rng.shuffle(o)
+        reg = [c10.metric_entry(rng, grid, [a], [posn[a]], f"m{k + 1}") for k, a in enumerate(axn)]
+        rng.shuffle(reg)
+        req = list(axn)
+        rng.shuffle(req)
+        add("c10", {"id": n, "ev": "GetMetric", "grid": grid, "reg": reg, "adims": [adims[i] for i in o], "ashape": [ashape[i] for i in o], "axes": req})
     # operators weighted by a metric over three axes for which only competing partitions are registered
     k = 0
     while k < (200 if thorough else 40):
